@@ -8,9 +8,10 @@ HasAccessibles.__init_subclass__ machinery, so that programs (C09) and configura
         ['bool']     ['enum', {name: value}]           ['string', {minchars, maxchars, isUTF8}]     ['blob', lo, hi]
         ['array', member, minlen, maxlen]              ['tuple', [member, ...]]
         ['struct', {name: member}, optional-list | None]
-        ['status', '<frappy base class>', [standard status names]]
+        ['status', '<frappy base class>', [standard status names]]     ['limits', member]  (LimitsType)
     class record   {'bases': [names of menu classes or of frappy classes], 'body': {attr: item}}
     body item      ['P', {Parameter kwds; 'datatype' is a datatype spec}]         a Parameter(...)
+                   ['PP', {kwds}]                                                   a frappy.persistent.PersistentParam(...)
                    ['L', {kwds}]                                                    a Limit(...)
                    ['V', value]                                                     bare value overriding an accessible / a property
                    ['N']                                                            None (removes the accessible)
@@ -35,6 +36,7 @@ import types
 import frappy.core     # noqa  (must be imported before frappy.mixins)
 import frappy.mixins
 import frappy.io
+import frappy.persistent
 from frappy import datatypes as D
 from frappy.errors import RangeError
 from frappy.modulebase import Feature, HasAccessibles
@@ -45,7 +47,7 @@ from frappy.properties import Property
 FRAPPY_BASES = {
     'object': object, 'Module': Module, 'Readable': Readable, 'Writable': Writable, 'Drivable': Drivable,
     'Communicator': Communicator, 'Feature': Feature, 'HasAccessibles': HasAccessibles,
-    'HasIO': frappy.io.HasIO,
+    'HasIO': frappy.io.HasIO, 'PersistentMixin': frappy.persistent.PersistentMixin,
     'HasControlledBy': frappy.mixins.HasControlledBy, 'HasOutputModule': frappy.mixins.HasOutputModule,
 }
 
@@ -75,6 +77,8 @@ def dt(spec):
         return D.TupleOf(*[dt(m) for m in spec[1]])
     if k == 'struct':
         return D.StructOf(None if spec[2] is None else list(spec[2]), **{n: dt(m) for n, m in spec[1].items()})
+    if k == 'limits':
+        return D.LimitsType(dt(spec[1]))
     if k == 'status':
         return D.StatusType(FRAPPY_BASES[spec[1]], *spec[2])
     raise ValueError(f'unknown datatype spec {spec!r}')
@@ -121,6 +125,11 @@ def make_impl(impl):
         ns = {}
         exec(f'def kwfunc(self, {args}):\n    """keyworded"""\n    return {{{keys}}}\n', ns)  # pylint: disable=exec-used
         return ns['kwfunc']
+    if kind == 'set':          # a command changing a (readonly) parameter
+        def setter(self, arg, _p=rest):
+            """set the parameter"""
+            setattr(self, _p, arg)
+        return setter
     if kind == 'kwargs':
         def kwfunc(self, **kwds):
             """any members"""
@@ -195,11 +204,11 @@ def make_handler(kind, keys, label):
 
 def make_item(item):
     code = item[0]
-    if code in ('P', 'L'):
+    if code in ('P', 'L', 'PP'):
         kwds = dict(item[1])
         if 'datatype' in kwds:
             kwds['datatype'] = dt(kwds['datatype'])
-        return (Parameter if code == 'P' else Limit)(**kwds)
+        return {'P': Parameter, 'L': Limit, 'PP': frappy.persistent.PersistentParam}[code](**kwds)
     if code == 'V':
         return item[1]
     if code == 'N':
@@ -319,6 +328,20 @@ G_RECORDS = {
         'read_ab': ['H', 'r', ['a', 'b'], 'ab'],
         'gain': ['P', {'description': 'gain', 'datatype': ['double', {'min': 0, 'max': 10}], 'readonly': False, 'default': 1.0}],
         'write_gain': ['M', 'w:gain'],
+        'doPoll': ['M', 'poll'],
+    }},
+    # persistent parameters (frappy.persistent): with / without write method, writable / readonly (changed through a command)
+    'GP': {'bases': ['PersistentMixin'], 'body': {
+        'pw': ['PP', {'description': 'persistent, written to the hardware', 'datatype': ['double', {'min': 0, 'max': 100}],
+                      'readonly': False, 'default': 1.0, 'persistent': 'auto'}],
+        'write_pw': ['M', 'w:pw'],
+        'pn': ['PP', {'description': 'persistent, no write method', 'datatype': ['double', {'min': 0, 'max': 100}], 'readonly': False,
+                      'default': 2.0}],
+        'pr': ['PP', {'description': 'persistent, readonly, changed by a command', 'datatype': ['double', {'min': 0, 'max': 100}],
+                      'default': 3.0}],
+        'setpr': ['C', {'argument': ['double', {'min': 0, 'max': 100}], 'result': None, 'description': 'set pr'}, 'set:pr'],
+        'q': ['P', {'description': 'not persistent', 'datatype': ['double', {'min': 0, 'max': 100}], 'readonly': False, 'default': 4.0}],
+        'write_q': ['M', 'w:q'],
         'doPoll': ['M', 'poll'],
     }},
     # not polled (enablePoll = False): nothing to poll, but configured values to be written to the hardware
